@@ -267,14 +267,21 @@ structure Wrote (v0 v : Vis) (out : List Piece) : Prop where
   log : v.log = v0.log ++ out
   indent : v.blockIndent = v0.blockIndent
   pos : v.lastPos = v0.lastPos
+  line : v.lineNumber = v0.lineNumber + RF.Newline.countNewlines (render out)
 
-theorem Wrote.refl (v : Vis) : Wrote v v [] := ⟨by simp [render], by simp, rfl, rfl⟩
+theorem countNewlines_append (a b : List Char) :
+    RF.Newline.countNewlines (a ++ b) = RF.Newline.countNewlines a + RF.Newline.countNewlines b := by
+  simp [RF.Newline.countNewlines]
+
+theorem Wrote.refl (v : Vis) : Wrote v v [] :=
+  ⟨by simp [render], by simp, rfl, rfl, by simp [render, RF.Newline.countNewlines]⟩
 
 theorem Wrote.push {v0 v : Vis} {out : List Piece} (h : Wrote v0 v out) (t : Tag) (s : List Char) :
     Wrote v0 (v.push t s) (out ++ [⟨t, s⟩]) := by
-  refine ⟨?_, ?_, h.indent, h.pos⟩
+  refine ⟨?_, ?_, h.indent, h.pos, ?_⟩
   · simp [Vis.push, h.buffer, render_append, render_single]
   · simp [Vis.push, h.log]
+  · simp only [Vis.push, h.line, render_append, render_single, countNewlines_append]; omega
 
 theorem Wrote.pushVerticalSpaces {v0 v : Vis} {out : List Piece} (h : Wrote v0 v out) (env : Env)
     (n : Nat) :
@@ -1042,6 +1049,7 @@ structure Result (env : Env) (v : Vis) (end_ : Nat) (snippet : List Char) (v' : 
   log : v'.log = v.log ++ o
   indent : v'.blockIndent = v.blockIndent
   pos : v'.lastPos = end_
+  line : v'.lineNumber = v.lineNumber + RF.Newline.countNewlines (render o)
   content : RcContent env.rc → squeeze (render o) = squeeze snippet
   vs : VspaceOk env v.buffer o
   shape : WholeOut env snippet o
@@ -1051,7 +1059,7 @@ theorem result_of_wrote {env : Env} {v v1 v' : Vis} {end_ : Nat} {snippet : List
     (hc : RcContent env.rc → squeeze (render o) = squeeze snippet) (hvs : VspaceOk env v.buffer o)
     (hsh : WholeOut env snippet o) : Result env v end_ snippet v' o := by
   subst hv1
-  exact ⟨hw.buffer, hw.log, hw.indent, hw.pos, hc, hvs, hsh⟩
+  exact ⟨hw.buffer, hw.log, hw.indent, hw.pos, hw.line, hc, hvs, hsh⟩
 
 theorem writeSnippet_spec (env : Env) (hind : IndentOk env.config) (k : Last)
     (pre snippet post : List Char) (hbig : env.big = pre ++ snippet ++ post) (v : Vis) :
@@ -1099,14 +1107,15 @@ theorem formatMissingInner_spec (env : Env) (hind : IndentOk env.config) (k : La
     cases hb : v.buffer.isEmpty with
     | true =>
       refine ⟨v, [], by simp, ?_⟩
-      exact ⟨by simp [render], by simp, rfl, he, fun _ => rfl, VspaceOk.nil env _,
-        WholeOut.nothing allWs_nil⟩
+      exact ⟨by simp [render], by simp, rfl, he, by simp [render, RF.Newline.countNewlines],
+        fun _ => rfl, VspaceOk.nil env _, WholeOut.nothing allWs_nil⟩
     | false =>
       obtain ⟨o, ho, hlo⟩ := processLast_spec env hind k v [] [] allWs_nil
       refine ⟨_, o, by simpa using ho, ?_⟩
       have hw := wrote_foldl (Wrote.refl v) o
       simp only [List.nil_append] at hw
-      exact ⟨hw.buffer, hw.log, hw.indent, by rw [hw.pos]; exact he, fun _ => by rw [hlo.content]; rfl,
+      exact ⟨hw.buffer, hw.log, hw.indent, by rw [hw.pos]; exact he, hw.line,
+        fun _ => by rw [hlo.content]; rfl,
         (VspaceOk.nil env _).append hlo.noVspace |> (by simpa using ·), WholeOut.empty o rfl hlo⟩
   · have hlen : 0 < utf8Len snippet := by
       cases snippet with
@@ -1124,8 +1133,8 @@ theorem formatMissingInner_spec (env : Env) (hind : IndentOk env.config) (k : La
     · rw [if_pos hfirst]
       have hws : AllWs snippet := (trim_nil_iff snippet).mp (by simpa using hfirst.2)
       refine ⟨_, [], rfl, ?_⟩
-      exact ⟨by simp [render], by simp, rfl, rfl, fun _ => by rw [squeeze_of_allWs hws]; rfl,
-        VspaceOk.nil env _, WholeOut.nothing hws⟩
+      exact ⟨by simp [render], by simp, rfl, rfl, by simp [render, RF.Newline.countNewlines],
+        fun _ => by rw [squeeze_of_allWs hws]; rfl, VspaceOk.nil env _, WholeOut.nothing hws⟩
     · rw [if_neg hfirst]
       by_cases hblank : (trim snippet).isEmpty = true
       · rw [if_pos hblank]
@@ -1171,7 +1180,7 @@ theorem formatMissing_spec (env : Env) (hind : IndentOk env.config)
     refine ⟨_, [⟨.code, [';']⟩], rfl, ?_⟩
     have hw := (Wrote.refl v).push .code [';']
     simp only [List.nil_append] at hw
-    refine ⟨hw.buffer, hw.log, hw.indent, rfl, ?_, ?_, WholeOut.semi hsemi⟩
+    refine ⟨hw.buffer, hw.log, hw.indent, rfl, hw.line, ?_, ?_, WholeOut.semi hsemi⟩
     · intro _
       rw [← squeeze_trim snippet, hsemi]; rfl
     · have := (VspaceOk.nil env v.buffer).append (o := [⟨.code, [';']⟩])
@@ -1319,6 +1328,55 @@ theorem LoopOut.comments {env : Env} (hed : env.ed2024 = false) : ∀ {items : L
         rcases htags q hq with h | h
         · rw [h]; decide
         · rw [h.1]; decide
+
+/-- The loop pushes no `last` piece. -/
+theorem LoopOut.noLast {env : Env} : ∀ {items : List Slice} {lo : List Piece},
+    LoopOut env items lo → ∀ q ∈ lo, q.tag ≠ .last
+  | _, _, .nil => by intro q hq; simp at hq
+  | _, _, .cons sl rest o os hstep hrest => by
+    intro q hq
+    rcases List.mem_append.mp hq with h | h
+    · cases hstep with
+      | comment _ _ hout =>
+        obtain ⟨pre, mid, post, rfl, hpre, hmid, hpost⟩ := hout
+        rcases List.mem_append.mp h with h | h
+        · rcases List.mem_append.mp h with h | h
+          · rw [(hpre q h).1]; decide
+          · cases hmid with
+            | whole sh => simp at h; subst h; simp
+            | raw t _ _ => simp at h; subst h; simp
+            | split _ _ _ _ _ _ _ _ _ => simp at h; rcases h with rfl | rfl | rfl <;> simp
+        · rw [(hpost q h).1]; decide
+      | vspace t _ _ _ => simp at h; subst h; simp
+      | code _ _ htags _ =>
+        rcases htags q h with h1 | h1
+        · rw [h1]; decide
+        · rw [h1.1]; decide
+    · exact LoopOut.noLast hrest q h
+
+/-- Every `last` piece — what the closure pushes as `last_snippet` — is white space. -/
+theorem WholeOut.lastBlank {env : Env} {snippet : List Char} {o : List Piece} (h : WholeOut env snippet o) :
+    ∀ q ∈ o, q.tag = .last → AllWs q.text := by
+  have hl : ∀ {l : List Piece}, LastOut l → ∀ q ∈ l, q.tag = .last → AllWs q.text := by
+    intro l hl q hq ht
+    obtain ⟨t, bl, rfl, hws, hbl⟩ := hl
+    rcases List.mem_cons.mp hq with rfl | hq
+    · exact hws
+    · exact (hbl q hq).2
+  cases h with
+  | nothing _ => intro q hq; simp at hq
+  | empty last _ hlast => exact hl hlast
+  | blank t last _ _ hlast =>
+    intro q hq ht
+    rcases List.mem_cons.mp hq with rfl | hq
+    · cases ht
+    · exact hl hlast q hq ht
+  | written items lo last _ hlo hlast =>
+    intro q hq ht
+    rcases List.mem_append.mp hq with hq | hq
+    · exact absurd ht (hlo.noLast q hq)
+    · exact hl hlast q hq ht
+  | semi _ => intro q hq ht; simp at hq; subst hq; cases ht
 
 /-! ## The oracles -/
 
